@@ -4,13 +4,15 @@ C10 with ALL extensions (tables off) on the domain WITH INLINE LINKS, part 5 (wo
 (simple regions behind `](` and `![`), with the parameters of the grammar (`HtmlBound`) instantiated — this file has NO
 `variable [HtmlBound]`.  It follows fc1's `Lemmas/F/PlaceholdersXAllF.lean` and g3's `Lemmas/PlaceholdersXCAll.lean`.
 
-1. `convertX_noctl_of_blockC`: the generic composition from the block-stage facts (tree of `FnQC` elements, log of the
-   token-free class `PWC`, stash entries without STX/ETX), footnotes on or off, through `tail_fnC`/`tail_nofnC`;
-2. fenced_code off: `block_nofenceC` (g3's cut-closed `BlkXC.parseDocumentXT_strs`), `convertX_noctl_links_fn`:
-   footnotes × inline links, nine flags arbitrary.
-3. fenced_code on: `block_fenceC` (the preprocessor `XT.fencedRunA_ownC`, `Lemmas/F/PlaceholdersXCTFence.lean`, and the
-   block stage on a text with placeholder blocks `XT.block_stage_ownC`, `Lemmas/F/PlaceholdersXCTBlock5.lean`);
-   `convertX_noctl_links_ten`: ALL TEN flags (tables off) on the domain with inline links.
+1. `convertX_noctl_blkC amp hc`: the composition from the preprocessor facts `PrepOKC amp` (with or without ampersands),
+   footnotes on or off, through the block stage (`block_stage_allC`: g3's cut-closed `BlkXC.parseDocumentXT_strs` without
+   fenced_code, `XT.block_stage_ownC` with) and `tail_fnC`/`tail_nofnC`; the parameters of the grammar are
+   `⟨xs.st.html.length, x.footnotes, amp⟩` (as in `Lemmas/F/PlaceholdersXAllF.lean`, worker amp);
+2. the preprocessors: `prepOKC_of` (normalize_whitespace, `XT.fencedRunA_ownC`, and `Extract.extract`, which only
+   inserts `;` behind unterminated character references and keeps the regions: `adjCA_semiIns`);
+3. on the domains: `convertX_noctl_links_ten` (ALL TEN flags, tables off, sources without `<` and `&`: worker cf's
+   statement, now the instance `amp = false`), `convertX_noctl_links_ten_amp` (sources without `<`, no entity material
+   inside a region), `convertX_noctl_links_fn` (fenced_code off).
 
 Core Lean only.
 -/
@@ -18,6 +20,7 @@ import MdVerif.Lemmas.F.PlaceholdersXCFn
 import MdVerif.Lemmas.F.PlaceholdersXAllF
 import MdVerif.Lemmas.F.PlaceholdersXCTBlock5
 import MdVerif.Lemmas.F.PlaceholdersXCTFence
+import MdVerif.Spec.F.DomainAmp
 
 namespace MdVerif.NoCtlXCF
 open Py
@@ -27,117 +30,164 @@ open MdVerif.NoCtl hiding Bnd BuildOK BuildOKB Clean CleanB Covered DNode DNode.
 open MdVerif.NoCtlF
 open MdVerif.NoCtlXC hiding tok_placeholder qw_splice_data ppLoopQ_spec PPSpecQ petTailQ_spec petTextQ_spec pet_bothQ procKidsQ_spec procNodeQ_spec processPlaceholdersQ_spec ppTopQ_spec findMatchQ FMSpecXB HIokXB HISpecXB hiOptXB_spec hiNodeXB_spec hiNodesXB_spec elStepXB_spec spliceXB_out StepOut applyPatternXB_spec hiLoopXB_spec handleInlineXB_spec hiSpecXB_of_fmSpecXB visit_textXB visit_tailXB visitChildX_specB VInvXB visitLoopX_specB RInvXB runLoopX_specB runX_specB EntrySpecXB fmSpecXB_of_entries btInv_congr dataB_congr spliceB_congr foundOKB_congr entry_core entry_nl labelStr_strB wikiNode_ok entry_wikilink digits_strB noCtl_natToDec noCtl_bumpRef noCtl_uniqueRefLoop noCtl_footnoteRefId aNode2_ok fnRefNode_ok entry_footnote fmSpecXB_inline fmSpecXB_tables hiSpecXB_tables hiSpecXB_inline
 
-/-! ## 1. the generic composition behind the block stage -/
+/-! ## 1. the composition -/
 
-/-- **what the block stage must deliver** for the text and the raw-HTML stash that the preprocessors return: a tree of
-    `FnQC` elements and a log of the token-free class `PWC` — for the grammar whose live raw-HTML placeholders are those
-    of the stash —, and stash entries without STX/ETX -/
-def BlockOKC (x : PipelineX.Exts) (cfg : Pipeline.Cfg) (src : Str) : Prop :=
-  ∀ text stash root log, PipelineX.prepareX x cfg src = .ok (text, stash) →
-    BlockExt.parseDocumentXT x.tables x.blockCfg cfg.tab text = some (root, log) →
-    root.Forall (@FnQC ⟨stash.length, x.footnotes⟩ x.wikilinks) ∧
-    BlkX.LogC NoCtlX.pDom (PWC x.wikilinks) log ∧ ∀ e ∈ stash, NoCtl e
+/-- the regions of the text: `AdjC lax`, and with ampersands no entity material inside a region (`AdjCA` without the
+    instance argument) -/
+def AdjAmp (amp lax : Bool) (s : Str) : Prop := AdjC lax s ∧ (amp = true → NoEntR s)
 
-/-- **end to end from the block-stage facts**, tables off, every other flag arbitrary -/
-theorem convertX_noctl_of_blockC {x : PipelineX.Exts} (htb : x.tables = false) {cfg : Pipeline.Cfg}
-    (hcfg : EscOK cfg.esc) {src out : Str} (hblk : BlockOKC x cfg src) (habbr : NoCtlXF.AbbrKeysOKA x cfg src)
+instance (amp lax : Bool) (s : Str) : Decidable (AdjAmp amp lax s) := by unfold AdjAmp; infer_instance
+
+/-- **what the preprocessors deliver** on the domain with inline links (normalize_whitespace 30, fenced_code_block 25,
+    html_block 20): every raw-HTML placeholder of the text is live and a block of its own, the text is of the domain
+    (`amp`: with or without ampersands), its regions are closed and simple (and hold no entity material when `amp`), and
+    no stash entry holds STX or ETX -/
+def PrepOKC (amp : Bool) (x : PipelineX.Exts) (cfg : Pipeline.Cfg) (src : Str) : Prop :=
+  ∀ text stash, PipelineX.prepareX x cfg src = .ok (text, stash) →
+    OwnBlock stash.length text ∧ DomAmp amp text ∧ AdjAmp amp false text ∧ Qw x.wikilinks text ∧ ∀ e ∈ stash, NoCtl e
+
+/-- **the block stage on the domain with inline links, all ten flags (tables off)**: g3's cut-closed
+    `parseDocumentXT_strs` without fenced_code (any tab length), `XT.block_stage_ownC` with (positive tab length) -/
+theorem block_stage_allC [HtmlBound] {x : PipelineX.Exts} (htb : x.tables = false) {cfg : Pipeline.Cfg}
+    (htab : x.fencedCode = true → 0 < cfg.tab) {src text : Str} {stash : List Str}
+    (hh : stash.length ≤ HtmlBound.h) (hp : PipelineX.prepareX x cfg src = .ok (text, stash))
+    (ho : OwnBlock stash.length text) (hd : DomA text) (ha : AdjCA false text) (hq : Qw x.wikilinks text)
+    {root : Node} {log : Block.Refs}
+    (hb : BlockExt.parseDocumentXT x.tables x.blockCfg cfg.tab text = some (root, log)) :
+    root.Forall (FnQC x.wikilinks) ∧ BlkX.LogC NoCtlXF.pDomA (PWC x.wikilinks) log := by
+  rw [htb] at hb
+  cases hfc : x.fencedCode with
+  | true =>
+    exact XT.block_stage_ownC x.wikilinks x.blockCfg (htab hfc) (NoCtlXF.XT.ownBlock_mono hh ho) hd ha hq hb
+  | false =>
+    obtain ⟨-, rfl⟩ := NoCtlX.prepareX_nofence hfc hp
+    have hP : PWC x.wikilinks text :=
+      ⟨⟨NoCtlXF.allC_pDomA_of (NoCtlXF.noCtl_of_ownBlock_zero ho) hd, ha⟩, hq⟩
+    obtain ⟨hroot, hlog⟩ := BlkXC.parseDocumentXT_strs (strDomXC_adjCqA x.wikilinks) x.blockCfg cfg.tab _ hP hb
+    exact ⟨Node.Forall.mono (fun _ hn => fnQC_of_bnodeXP hn) root hroot, hlog⟩
+
+/-- **end to end from the preprocessor facts, inline links allowed**, tables off, every other flag arbitrary, with
+    (`amp = true`) or without ampersands.  The keys that cut a raw-HTML placeholder must be excluded (`hc = true`) when
+    fenced_code is on and when the domain has ampersands. -/
+theorem convertX_noctl_blkC (amp hc : Bool) {x : PipelineX.Exts} (htb : x.tables = false) {cfg : Pipeline.Cfg}
+    (hcfg : EscOK cfg.esc) (htab : x.fencedCode = true → 0 < cfg.tab)
+    {src out : Str} (hprep : PrepOKC amp x cfg src) (habbr : NoCtlXF.AbbrKeysOKH hc x cfg src)
+    (hhc1 : x.fencedCode = true → hc = true) (hhc2 : amp = true → hc = true)
     (h : PipelineX.convertX x cfg src = .ok out) : NoCtl out := by
   cases hfn : x.footnotes with
   | true =>
     have hunf := by
-      letI : HtmlBound := ⟨0, true⟩
+      letI : HtmlBound := ⟨0, true, false⟩
       exact NoCtlXF.convertX_fn_ok hfn h
     rcases hunf with rfl | ⟨text, stash, root, log, div, log', t, xs, t', u, html, hp, hb, hm, hr, hdp, hl, hf⟩
     · exact noCtl_nil
-    · obtain ⟨hrootQ, hlog, he⟩ := hblk text stash root log hp hb
-      letI : HtmlBound := ⟨stash.length, x.footnotes⟩
+    · obtain ⟨ho, hd, ha, hq, he⟩ := hprep text stash hp
+      letI : HtmlBound := ⟨xs.st.html.length, x.footnotes, amp⟩
       haveI : FnOn := ⟨hfn⟩
-      refine tail_fnC hfn htb hcfg ⟨Nat.le_refl _, rfl, he⟩ hrootQ hlog hm hr hdp hl hf ?_
-      intro hlog' hxa
+      have hle : stash.length ≤ xs.st.html.length := NoCtlXF.runX_hle hr
+      obtain ⟨hrootQ, hlog⟩ := block_stage_allC htb htab hle hp ho (domA_of_domAmp hd) ha hq hb
+      refine tail_fnC hfn htb hcfg rfl he hrootQ hlog hm hr rfl hdp hl hf ?_
+      intro hhtml hlog' hxa
       have hk := habbr hxa (BlockExt.abbrsOf log')
         (by simp only [NoCtlXF.abbrsX, hp, hb, NoCtlXF.fnLog, hfn, if_true, hm, Option.map_some])
-      exact ⟨NoCtlX.abbrs_noctl hlog', hk.1,
-        NoCtlXF.noFrnAbbr_spec hk.2 (fun _ => hfn) (fun h0 => NoCtlXF.stash_pos_fenced hp h0)⟩
+      refine ⟨NoCtlXF.abbrs_noctlA hlog', hk.1, NoCtlXF.noFrnAbbr_spec hk.2 (fun _ => hfn) (fun h0 => ?_)⟩
+      cases hamp : amp with
+      | true => exact hhc2 hamp
+      | false =>
+        have e : xs.st.html = stash := hhtml.2 hamp
+        have h0' : 0 < xs.st.html.length := h0
+        rw [e] at h0'
+        exact hhc1 (NoCtlXF.stash_pos_fenced hp h0')
   | false =>
     rcases NoCtlX.convertX_front_ok hfn h with rfl | ⟨text, stash, root, log, t, xs, u, html, hp, hb, hr, hl, hf⟩
     · exact noCtl_nil
-    · obtain ⟨hrootQ, hlog, he⟩ := hblk text stash root log hp hb
-      letI : HtmlBound := ⟨stash.length, x.footnotes⟩
-      refine tail_nofnC hfn hcfg ⟨Nat.le_refl _, rfl, he⟩ hrootQ hlog hr hl hf ?_
-      intro hxa
+    · obtain ⟨ho, hd, ha, hq, he⟩ := hprep text stash hp
+      letI : HtmlBound := ⟨xs.st.html.length, x.footnotes, amp⟩
+      have hle : stash.length ≤ xs.st.html.length := NoCtlXF.runX_hle hr
+      obtain ⟨hrootQ, hlog⟩ := block_stage_allC htb htab hle hp ho (domA_of_domAmp hd) ha hq hb
+      refine tail_nofnC hfn hcfg rfl he hrootQ hlog hr rfl hl hf ?_
+      intro hhtml hxa
       have hk := habbr hxa (BlockExt.abbrsOf log)
         (by simp only [NoCtlXF.abbrsX, hp, hb, NoCtlXF.fnLog, hfn, Bool.false_eq_true, if_false, Option.map_some])
-      refine ⟨NoCtlX.abbrs_noctl hlog, hk.1,
-        NoCtlXF.noFrnAbbr_spec hk.2 (fun h1 => ?_) (fun h0 => NoCtlXF.stash_pos_fenced hp h0)⟩
-      exact h1
+      refine ⟨NoCtlXF.abbrs_noctlA hlog, hk.1, NoCtlXF.noFrnAbbr_spec hk.2 (fun h1 => h1) (fun h0 => ?_)⟩
+      cases hamp : amp with
+      | true => exact hhc2 hamp
+      | false =>
+        have e : xs.st.html = stash := hhtml.2 hamp
+        have h0' : 0 < xs.st.html.length := h0
+        rw [e] at h0'
+        exact hhc1 (NoCtlXF.stash_pos_fenced hp h0')
 
-/-! ## 2. fenced_code off: footnotes × inline links -/
+/-! ## 2. the preprocessors -/
 
-/-- the block stage without fenced_code on the domain with inline links: g3's cut-closed block stage -/
-theorem block_nofenceC {x : PipelineX.Exts} (hfc : x.fencedCode = false) (htb : x.tables = false)
-    {cfg : Pipeline.Cfg} {src : Str} (hd : C10DomainC cfg.tab src)
-    (hq : Qw x.wikilinks (Normalize.normalize cfg.tab src)) : BlockOKC x cfg src := by
-  intro text stash root log hp hb
-  obtain ⟨rfl, rfl⟩ := NoCtlX.prepareX_nofence hfc hp
-  rw [htb] at hb
-  have hP : PWC x.wikilinks (Pipeline.prepare cfg src) :=
-    ⟨prepare_domC cfg hd, by rw [prepare_eq_normalize cfg hd]; exact hq⟩
-  obtain ⟨hroot, hlog⟩ := BlkXC.parseDocumentXT_strs (strDomXC_adjCq x.wikilinks) x.blockCfg cfg.tab _ hP hb
-  letI : HtmlBound := ⟨([] : List Str).length, x.footnotes⟩
-  exact ⟨Node.Forall.mono (fun _ hn => fnQC_of_bnodeXP hn) root hroot, hlog, by simp⟩
-
-/-- **footnotes × inline links**: end to end with every extension but fenced_code and tables (footnotes included), on
-    the domain of `C10_partial_inline_links` (with wikilinks: no `[` immediately before a blank) -/
-theorem convertX_noctl_links_fn {x : PipelineX.Exts} (hfc : x.fencedCode = false) (htb : x.tables = false)
-    {cfg : Pipeline.Cfg} (hcfg : EscOK cfg.esc) {src out : Str} (hd : C10DomainC cfg.tab src)
-    (hq : Qw x.wikilinks (Normalize.normalize cfg.tab src)) (habbr : NoCtlXF.AbbrKeysOKA x cfg src)
-    (h : PipelineX.convertX x cfg src = .ok out) : NoCtl out :=
-  convertX_noctl_of_blockC htb hcfg (block_nofenceC hfc htb hd hq) habbr h
-
-/-! ## 3. fenced_code on: all ten flags -/
-
-/-- the block stage with fenced_code on the domain with inline links: the preprocessor writes placeholder blocks and keeps
-    the closed regions (`XT.fencedRunA_ownC`), the raw-HTML preprocessor is the identity on a text without `&`, the block
-    parser keeps placeholders whole and the log clean (`XT.block_stage_ownC`); positive tab length -/
-theorem block_fenceC {x : PipelineX.Exts} (hfc : x.fencedCode = true) (htb : x.tables = false)
-    {cfg : Pipeline.Cfg} (htab : 0 < cfg.tab) {src : Str} (hd : C10DomainC cfg.tab src)
-    (hq : Qw x.wikilinks (Normalize.normalize cfg.tab src)) : BlockOKC x cfg src := by
-  intro text stash root log hp hb
-  rw [htb] at hb
+/-- **the preprocessors on the domain with inline links**: normalize_whitespace, the fenced_code preprocessor (when
+    enabled; worker cf: `XT.fencedRunA_ownC`), and the raw-HTML preprocessor, which only inserts `;` behind unterminated
+    character references: it keeps the regions closed and simple (`;` is a `destChar` and an `altChar`) and, since no
+    region holds `&#`, free of entity material (`adjCA_semiIns`) -/
+theorem prepOKC_of {amp : Bool} {x : PipelineX.Exts} {cfg : Pipeline.Cfg} {src : Str} (hd : DomAmp amp src)
+    (ha : AdjAmp amp false (Normalize.normalize cfg.tab src)) (hq : Qw x.wikilinks (Normalize.normalize cfg.tab src)) :
+    PrepOKC amp x cfg src := by
+  intro text stash hp
+  letI : HtmlBound := ⟨0, false, amp⟩
+  have hn : NoCtl (Normalize.normalize cfg.tab src) := normalize_noctl cfg.tab src
+  have hdn : DomA (Normalize.normalize cfg.tab src) := domA_of_domAmp (NoCtlXF.domAmp_normalize cfg.tab hd)
+  have han : AdjCA false (Normalize.normalize cfg.tab src) := ha
+  -- behind the raw-HTML preprocessor
+  have key : ∀ t' : Str, OwnBlock stash.length t' → DomA t' → AdjCA false t' → Qw x.wikilinks t' →
+      OwnBlock stash.length (Extract.extract t') ∧ DomAmp amp (Extract.extract t') ∧
+        AdjAmp amp false (Extract.extract t') ∧ Qw x.wikilinks (Extract.extract t') := by
+    intro t' h1 h2 h3 h4
+    have hi := extract_semiIns t'
+    exact ⟨ownBlock_semiIns hi h1, domAmp_of_domA (domA_semiIns hi h2), adjCA_semiIns hi h3, qw_semiIns hi h4⟩
   unfold PipelineX.prepareX at hp
-  simp only [hfc, if_true] at hp
+  simp only at hp
   split at hp
   · cases hp
   · split at hp
-    · cases hp
     · split at hp
-      · next t' st hrun =>
-        injection hp with hp
-        simp only [Prod.mk.injEq] at hp
-        obtain ⟨rfl, rfl⟩ := hp
-        have h1 := prepare_domC cfg hd
-        rw [prepare_eq_normalize cfg hd] at h1
-        have h2 := allC_domB h1.1
-        obtain ⟨⟨o1, o2, o3, o4⟩, o5⟩ := XT.fencedRunA_ownC x.wikilinks hrun h2.1 h2.2 h1.2 hq
-        rw [extract_no_amp (NoCtlXF.amp_not_mem_of_domB o2)] at hb
-        letI : HtmlBound := ⟨st.length, x.footnotes⟩
-        obtain ⟨hroot, hlog⟩ := XT.block_stage_ownC x.wikilinks x.blockCfg htab o1 o2 o3 o4 hb
-        exact ⟨hroot, hlog, o5⟩
       · cases hp
+      · split at hp
+        · next t' st hrun =>
+          injection hp with hp
+          simp only [Prod.mk.injEq] at hp
+          obtain ⟨rfl, rfl⟩ := hp
+          obtain ⟨⟨o1, o2, o3, o4⟩, o5⟩ := XT.fencedRunA_ownC x.wikilinks hrun hn hdn han hq
+          obtain ⟨k1, k2, k3, k4⟩ := key t' o1 o2 o3 o4
+          exact ⟨k1, k2, k3, k4, o5⟩
+        · cases hp
+    · injection hp with hp
+      simp only [Prod.mk.injEq] at hp
+      obtain ⟨rfl, rfl⟩ := hp
+      obtain ⟨k1, k2, k3, k4⟩ := key _ (NoCtlXF.ownBlock_of_noCtl _ hn) hdn han hq
+      exact ⟨k1, k2, k3, k4, by simp⟩
 
-/-- the block stage on the domain with inline links, all ten flags (tables off) -/
-theorem block_allC {x : PipelineX.Exts} (htb : x.tables = false) {cfg : Pipeline.Cfg}
-    (htab : x.fencedCode = true → 0 < cfg.tab) {src : Str} (hd : C10DomainC cfg.tab src)
-    (hq : Qw x.wikilinks (Normalize.normalize cfg.tab src)) : BlockOKC x cfg src := by
-  cases hfc : x.fencedCode with
-  | false => exact block_nofenceC hfc htb hd hq
-  | true => exact block_fenceC hfc htb (htab hfc) hd hq
+/-! ## 3. on the domains -/
 
-/-- **end to end, all ten flags (tables off), on the domain with inline links** -/
+/-- **end to end, all ten flags (tables off), on the domain with inline links, without `<` and `&`** (worker cf's
+    statement; now the instance `amp = false` of the chain) -/
 theorem convertX_noctl_links_ten {x : PipelineX.Exts} (htb : x.tables = false) {cfg : Pipeline.Cfg}
     (hcfg : EscOK cfg.esc) (htab : x.fencedCode = true → 0 < cfg.tab) {src out : Str}
     (hd : C10DomainC cfg.tab src) (hq : Qw x.wikilinks (Normalize.normalize cfg.tab src))
     (habbr : NoCtlXF.AbbrKeysOKA x cfg src) (h : PipelineX.convertX x cfg src = .ok out) : NoCtl out :=
-  convertX_noctl_of_blockC htb hcfg (block_allC htb htab hd hq) habbr h
+  convertX_noctl_blkC false x.fencedCode htb hcfg htab
+    (prepOKC_of (domAmp_of_domB hd.1) ⟨hd.2, fun h => by cases h⟩ hq) habbr (fun h => h) (fun h => by cases h) h
+
+/-- **footnotes × inline links** with fenced_code off (worker cf's statement) -/
+theorem convertX_noctl_links_fn {x : PipelineX.Exts} (hfc : x.fencedCode = false) (htb : x.tables = false)
+    {cfg : Pipeline.Cfg} (hcfg : EscOK cfg.esc) {src out : Str} (hd : C10DomainC cfg.tab src)
+    (hq : Qw x.wikilinks (Normalize.normalize cfg.tab src)) (habbr : NoCtlXF.AbbrKeysOKA x cfg src)
+    (h : PipelineX.convertX x cfg src = .ok out) : NoCtl out :=
+  convertX_noctl_links_ten htb hcfg (fun h0 => by rw [hfc] at h0; cases h0) hd hq habbr h
+
+/-- **end to end, all ten flags (tables off), on the domain with inline links and ampersands**: no `<`; in the
+    normalised text no backslash–backtick, closed simple regions behind `](` and `![` that hold neither `;` nor `&#`; the
+    abbreviation keys that cut a raw-HTML placeholder are excluded whether or not fenced_code is on -/
+theorem convertX_noctl_links_ten_amp {x : PipelineX.Exts} (htb : x.tables = false) {cfg : Pipeline.Cfg}
+    (hcfg : EscOK cfg.esc) (htab : x.fencedCode = true → 0 < cfg.tab) {src out : Str} (hlt : '<' ∉ src)
+    (ha : AdjC false (Normalize.normalize cfg.tab src)) (he : NoEntR (Normalize.normalize cfg.tab src))
+    (hq : Qw x.wikilinks (Normalize.normalize cfg.tab src))
+    (habbr : NoCtlXF.AbbrKeysOKAmp x cfg src) (h : PipelineX.convertX x cfg src = .ok out) : NoCtl out :=
+  convertX_noctl_blkC true true htb hcfg htab (prepOKC_of ⟨hlt, fun h => by cases h⟩ ⟨ha, fun _ => he⟩ hq) habbr
+    (fun _ => rfl) (fun _ => rfl) h
 
 end MdVerif.NoCtlXCF
